@@ -27,10 +27,14 @@ CONSTANTS TargetLo, TargetHi,   \* program lengths: statements generated, Target
           MaxDepth,    \* nesting bound (8)
           MaxMut,      \* mutations per program (<= 3)
           MaxFaults,   \* planted faults per program
-          CharMuts     \* TRUE: character-level mutations enabled
+          CharMuts,    \* TRUE: character-level mutations enabled
+          Sim          \* TRUE under -simulate: mutation sites are drawn with RandomElement instead of
+                       \* being enumerated (a sentence of 300 tokens has > 10^5 single mutations)
 
-VARIABLES form, nexp, nst, target, muts, nfault
-vars == <<form, nexp, nst, target, muts, nfault>>
+VARIABLES form,    \* the terminals derived so far (the sentence, once `stack` is empty)
+          stack,   \* the rest of the sentential form: pending symbols, leftmost first
+          nexp, nst, target, muts, nfault
+vars == <<form, stack, nexp, nst, target, muts, nfault>>
 
 T(s)    == [s |-> s, d |-> 0]                 \* a terminal (token class or literal punctuation)
 N(s, d) == [s |-> s, d |-> d]                 \* a nonterminal at nesting depth d
@@ -138,65 +142,77 @@ Prods(x) ==
       [] x.s = "REPBODY" -> RepBodyProds(x.d)
       [] OTHER           -> {}
 
-HasNT     == \E i \in 1..Len(form) : IsNT(form[i])
-Leftmost  == CHOOSE i \in 1..Len(form) : IsNT(form[i]) /\ \A j \in 1..(i - 1) : ~IsNT(form[j])
-Replace(i, rhs) == SubSeq(form, 1, i - 1) \o rhs \o SubSeq(form, i + 1, Len(form))
+HasNT     == stack # <<>>
+Top       == stack[1]
 CountStmt(rhs)  == Cardinality({j \in 1..Len(rhs) : rhs[j].s = "STMT"})
 
-Init == /\ target \in TargetLo..TargetHi /\ form = <<N("PROG", 0)>> /\ nexp = 0 /\ nst = 0
+(* after a rewrite, the terminals at the front of the pending symbols belong to the sentence *)
+RECURSIVE LeadT(_, _)
+LeadT(sq, i) == IF i > Len(sq) \/ IsNT(sq[i]) THEN i - 1 ELSE LeadT(sq, i + 1)
+Rewrite(rhs) == LET ns == rhs \o Tail(stack) k == LeadT(ns, 1) IN
+                /\ form' = form \o [i \in 1..k |-> ns[i].s]
+                /\ stack' = SubSeq(ns, k + 1, Len(ns))
+
+Pick(S) == IF Sim /\ S # {} THEN {RandomElement(S)} ELSE S
+
+Init == /\ target \in TargetLo..TargetHi /\ form = <<>> /\ stack = <<N("PROG", 0)>> /\ nexp = 0 /\ nst = 0
         /\ muts = <<>> /\ nfault = 0
 
 (* PROG unfolds deterministically into `target` statements (not counted as an expansion) *)
-Unfold == /\ HasNT /\ form[Leftmost].s = "PROG"
-          /\ form' = Replace(Leftmost, IF nst < target THEN <<N("STMT", 0), T("nl"), N("PROG", 0)>> ELSE <<>>)
+Unfold == /\ HasNT /\ Top.s = "PROG"
+          /\ Rewrite(IF nst < target THEN <<N("STMT", 0), T("nl"), N("PROG", 0)>> ELSE <<>>)
           /\ nst' = IF nst < target THEN nst + 1 ELSE nst
           /\ UNCHANGED <<nexp, target, muts, nfault>>
 
-Expand == /\ HasNT /\ form[Leftmost].s # "PROG" /\ nexp < MaxExp
-          /\ \E rhs \in Prods(form[Leftmost]) :
-               /\ nst + CountStmt(rhs) <= MaxStmts
-               /\ form' = Replace(Leftmost, rhs)
+Expand == /\ HasNT /\ Top.s # "PROG" /\ nexp < MaxExp
+          /\ \E rhs \in Pick({r \in Prods(Top) : nst + CountStmt(r) <= MaxStmts}) :
+               /\ Rewrite(rhs)
                /\ nst' = nst + CountStmt(rhs)
           /\ nexp' = nexp + 1 /\ UNCHANGED <<target, muts, nfault>>
 
-PlantFault == /\ HasNT /\ form[Leftmost].s = "STMT" /\ nfault < MaxFaults /\ nexp < MaxExp
-              /\ \E k \in FaultKinds : form' = Replace(Leftmost, <<T("fault:" \o k)>>)
+PlantFault == /\ HasNT /\ Top.s = "STMT" /\ nfault < MaxFaults /\ nexp < MaxExp
+              /\ (Sim => RandomElement(1..8) = 1)
+              /\ \E k \in Pick(FaultKinds) : Rewrite(<<T("fault:" \o k)>>)
               /\ nfault' = nfault + 1 /\ nexp' = nexp + 1 /\ UNCHANGED <<nst, target, muts>>
 
 Complete == ~HasNT
-Positions == 1..Len(form)
+Positions == Pick(1..Len(form))
+MutKinds  == Pick({"del", "dup", "swap", "rep"} \cup (IF CharMuts THEN {"cdel", "cins", "crep"} ELSE {}))
 
 Mutate == /\ Complete /\ Len(muts) < MaxMut /\ Len(form) > 0
-          /\ \E pos \in Positions :
-               \/ /\ form' = SubSeq(form, 1, pos - 1) \o SubSeq(form, pos + 1, Len(form))
-                  /\ muts' = Append(muts, [kind |-> "del", at |-> pos, off |-> 0, ch |-> 0])
-               \/ /\ form' = SubSeq(form, 1, pos) \o SubSeq(form, pos, Len(form))
-                  /\ muts' = Append(muts, [kind |-> "dup", at |-> pos, off |-> 0, ch |-> 0])
-               \/ /\ pos < Len(form)
-                  /\ form' = [form EXCEPT ![pos] = form[pos + 1], ![pos + 1] = form[pos]]
-                  /\ muts' = Append(muts, [kind |-> "swap", at |-> pos, off |-> 0, ch |-> 0])
-               \/ \E c \in Terminals :
-                    /\ c # form[pos].s
-                    /\ form' = [form EXCEPT ![pos] = T(c)]
-                    /\ muts' = Append(muts, [kind |-> "rep", at |-> pos, off |-> 0, ch |-> 0])
-               \/ /\ CharMuts
-                  /\ \E k \in {"cdel", "cins", "crep"}, off \in 0..2, ch \in 1..CharSetSize :
-                       /\ (k = "cdel" => ch = 1)
-                       /\ muts' = Append(muts, [kind |-> k, at |-> pos, off |-> off, ch |-> ch])
-                  /\ UNCHANGED form
-          /\ UNCHANGED <<nexp, nst, target, nfault>>
+          /\ \E pos \in Positions, kind \in MutKinds :
+               CASE kind = "del" ->
+                      /\ form' = SubSeq(form, 1, pos - 1) \o SubSeq(form, pos + 1, Len(form))
+                      /\ muts' = Append(muts, [kind |-> "del", at |-> pos, off |-> 0, ch |-> 0])
+                 [] kind = "dup" ->
+                      /\ form' = SubSeq(form, 1, pos) \o SubSeq(form, pos, Len(form))
+                      /\ muts' = Append(muts, [kind |-> "dup", at |-> pos, off |-> 0, ch |-> 0])
+                 [] kind = "swap" ->
+                      /\ pos < Len(form)
+                      /\ form' = [form EXCEPT ![pos] = form[pos + 1], ![pos + 1] = form[pos]]
+                      /\ muts' = Append(muts, [kind |-> "swap", at |-> pos, off |-> 0, ch |-> 0])
+                 [] kind = "rep" ->
+                      \E c \in Pick(Terminals \ {form[pos]}) :
+                        /\ form' = [form EXCEPT ![pos] = c]
+                        /\ muts' = Append(muts, [kind |-> "rep", at |-> pos, off |-> 0, ch |-> 0])
+                 [] OTHER ->          \* character level: recorded, applied by the renderer
+                      /\ \E off \in Pick(0..2), ch \in Pick(1..CharSetSize) :
+                           /\ (kind = "cdel" => ch = 1 \/ Sim)
+                           /\ muts' = Append(muts, [kind |-> kind, at |-> pos, off |-> off, ch |-> ch])
+                      /\ UNCHANGED form
+          /\ UNCHANGED <<stack, nexp, nst, target, nfault>>
 
 Next == Unfold \/ Expand \/ PlantFault \/ Mutate
 Spec == Init /\ [][Next]_vars
 
 (* ---- checked by TLC ---- *)
 TypeOK     == nexp \in 0..MaxExp /\ Len(muts) <= MaxMut /\ nfault <= MaxFaults
-DepthOK    == \A i \in 1..Len(form) : form[i].d <= MaxDepth                 \* nesting never exceeds the bound
+DepthOK    == \A i \in 1..Len(stack) : stack[i].d <= MaxDepth                \* nesting never exceeds the bound
 StmtBound  == nst <= MaxStmts                                               \* at most 60 statements, nested ones included
-OnlyTerminalsWhenComplete == Complete => \A i \in 1..Len(form) : form[i].s \in Terminals
+OnlyTerminalsWhenComplete == \A i \in 1..Len(form) : form[i] \in Terminals
 
 (* ---- export: every complete sentence (before and after each mutation) ---- *)
 CharMutsOf == SelectSeq(muts, LAMBDA m : m.kind \in {"cdel", "cins", "crep"})
-Export == Complete => PrintT(ToJson([m |-> "g", toks |-> [i \in 1..Len(form) |-> form[i].s], muts |-> muts,
+Export == Complete => PrintT(ToJson([m |-> "g", toks |-> form, muts |-> muts,
                                      cm |-> CharMutsOf, nst |-> nst, nexp |-> nexp, nf |-> nfault]))
 =============================================================================
